@@ -18,14 +18,14 @@ CLAIMED = {
         note="Trusted: Verus/Z3; extraction rules R1-R10; Rust-reference layout rules for emitted type tokens (env); libclang numbers; uninterpreted context reads. Unverified: CompInfo::codegen call order and repr selection, packed/union/bit-field-adjacent placement (invariant+safety only), primitive type mapping, pad_struct sub-region with 8-aligned inexact padding.",
         ref="DESIGN.md §3 C02"),
     "C04": dict(
-        technique="Kani function contract on the private get_abi (in-crate harness via cfg(kani) hook), full u32 domain",
-        text="Deductive proof (loop-free, every CXCallingConv value) that the calling convention libclang reports is mapped to the Rust ABI the C compiler uses, and to Unknown exactly for unlisted conventions. Only the calling-convention table of C04.",
-        note="Trusted: Kani/CBMC; oracle table from clang-c/Index.h. Unverified (most of C04): mangled names, link_name omission, argument lowering, method wrappers, ABI classification rustc vs clang.",
+        technique="Kani function contract on the private get_abi (in-crate harness via cfg(kani) hook), full u32 domain; Verus contracts on extracted FunctionSig::abi, argument/return lowering, the pointer arm of try_to_rust_ty and names_will_be_identical_after_mangling",
+        text="Deductive proof (loop-free, every CXCallingConv value) that the calling convention libclang reports is mapped to the Rust ABI the C compiler uses, and to Unknown exactly for unlisted conventions; that the emitted ABI is the override or the reported one; argument/return/pointer lowering rules; and, for names of every length, that #[link_name] is omitted exactly when the symbol is the Rust name or its platform decoration for the calling convention (slice bounds proved). Known finding F9: the decoration test ignores the target (ELF `_name`).",
+        note="Trusted: Kani/CBMC, Verus/Z3; oracle table from clang-c/Index.h; decoration table from the Microsoft/Mach-O conventions; rule R21 (std str/slice operations as Seq-specified env functions). Unverified: mangled names from libclang, the call sites of the link_name decision, method wrappers, merge_extern_blocks, ABI classification rustc vs clang.",
         ref="DESIGN.md §3 C04"),
     "C05": dict(
-        technique="Verus contracts on extracted default_macro_constant_type, IntKind::is_signed, IntKind::known_size",
-        text="Deductive proof for all i64 macro values and both option reads that the integer kind chosen for a macro constant can hold the value with the sign the property demands, is the narrowest such kind under fit-macro-constant-types and 32/64 bits otherwise; IntKind sign/size tables agree with the C model.",
-        note="Trusted: Verus/Z3; extraction rules; widening-conversion specs; C-model table. Unverified: cexpr/libclang evaluation, literal emission in Var::codegen, Enum::codegen repr translation.",
+        technique="Verus contracts on extracted default_macro_constant_type, IntKind::is_signed, IntKind::known_size, clang::EvalResult::as_int",
+        text="Deductive proof for all i64 macro values and both option reads that the integer kind chosen for a macro constant can hold the value with the sign the property demands, is the narrowest such kind under fit-macro-constant-types and 32/64 bits otherwise; IntKind sign/size tables agree with the C model; the value of a const initialiser / fallback macro is read from the full-width libclang getter matching its signedness.",
+        note="Trusted: Verus/Z3; extraction rules incl. R20 (unsafe FFI call -> safe stub with an uninterpreted spec); widening-conversion specs; C-model table. Unverified: cexpr/libclang evaluation itself, literal emission in Var::codegen, Enum::codegen repr translation.",
         ref="DESIGN.md §3 C05"),
     "C06": dict(
         technique="Verus contracts on the layout-assertion block and the per-member assertion closure of CompInfo::codegen, extracted mechanically (rule R18)",
@@ -33,13 +33,13 @@ CLAIMED = {
         note="Trusted: Verus/Z3; extraction rules incl. R18 and span substitutions; each assertion token template is an env constructor recording what it asserts; libclang's numbers. Unverified: completeness of the field list, non-host targets, that every concrete struct reaches the block.",
         ref="DESIGN.md §7 (C06 moved from not-applicable to narrowly claimed after rule R18)"),
     "C07": dict(
-        technique="Kani (in-crate) lattice-join contracts + Verus contracts on the extracted consider_edge predicates against hand-derived read-sets",
-        text="Deductive proof of two necessary conditions of the least-fixed-point claim: every join the analyses use is the least upper bound of its declared order (all operand pairs), and every edge kind a constrain rule reads along is subscribed by that analysis' dependency predicate (six analyses + the three CannotDerive reader predicates).",
-        note="Narrow. Trusted: read-sets derived by reading each constrain; Kani/Verus. Unverified: constrain bodies on real IR, the worklist driver analyze (closure captures &mut), Trace impls, termination, declaration-order corollary.",
+        technique="Kani (in-crate) lattice-join contracts + Verus contracts on the extracted consider_edge predicates, the set- and lattice-valued insert/constrain functions and the generic worklist driver analyze::<A>",
+        text="Deductive proof of necessary conditions of the least-fixed-point claim: every join is the least upper bound of its declared order; every edge kind a rule reads along is subscribed; table updates are inflationary and report Changed exactly when the table changed; the three set-valued rules satisfy their fix-point equation; and the generic driver analyze::<A>, for every analysis meeting the MonotoneFramework obligations, returns a state in which re-applying the rule at any node of the initial worklist changes nothing.",
+        note="Narrow. Trusted: read-sets derived by reading each constrain; Kani/Verus; the trait-level obligations assumed of an analysis (env/analyze_env.rs); rules R16/R19. Unverified: constrain of has_vtable/sizedness/template_params and CannotDerive::constrain (outer), initial_worklist functions (CannotDerive relies on their order for non-allowlisted sub-items: seed S24 missed), generate_dependencies, Trace impls, termination, declaration-order corollary.",
         ref="DESIGN.md §3 C07"),
     "C08": dict(
         technique="Verus contracts on extracted CannotDerive::constrain_type, DeriveTrait rule functions, impl CanDerive* gates, derives_of_item, function_pointers_can_derive + Kani in-crate proofs of the private rule tables against a property-derived oracle",
-        text="Deductive proof that the whole per-type derive rule (blocklisted, excluded by name, opaque, simple kinds, pointers and fn pointers of every arity, arrays incl. the 32-element tier, vectors, compounds with destructor/vtable/union/forward-decl rules, references and template instantiations via an uninterpreted member join) equals the rules the property lists; each CanDerive* query is exactly option && analysis lookup (&& no float for Eq/Ord); derives_of_item applies packed-requires-Copy and annotation exclusions exactly.",
+        text="Deductive proof that the whole per-type derive rule (blocklisted, excluded by name, opaque, simple kinds, pointers and fn pointers of every arity, arrays incl. the 32-element tier, vectors, compounds with destructor/vtable/union/forward-decl rules, references and template instantiations via an uninterpreted member join) equals the rules the property lists; each CanDerive* query is exactly option && analysis lookup (&& no float for Eq/Ord); derives_of_item applies packed-requires-Copy and annotation exclusions exactly; the four hand-written-impl decisions of CompInfo::codegen (Debug, Default, Clone, PartialEq) honour the derive option, the impl option, by-name exclusions and annotations.",
         note="Trusted: Kani/Verus; oracle rules written from the property; uninterpreted IR reads and member join (constrain_join); T instantiated at ItemId; DerivableTraits modelled as one bool per flag. Unverified: constrain_join/Trace (which members are joined), the large-alignment override and insert in CannotDerive::constrain, hand-written impl bodies (impl_debug.rs, impl_partialeq.rs, Default via write_bytes).",
         ref="DESIGN.md §3 C08"),
     "C09": dict(
@@ -60,7 +60,7 @@ CLAIMED = {
     "C14": dict(
         technique="Kani function contracts on the real features.rs over the full u64 version domain (complete) + Verus contract on the extracted FunctionSig::abi gating site",
         text="Deductive proof over every (minor, patch) in u64 x u64, nightly, and all editions that RustFeatures::new equals the release-notes gating table, is monotone, ignores the patch level; edition availability and latest_edition; RustTarget::stable rejects exactly minor<51; and that FunctionSig::abi accepts an ABI (after --override-abi) only if the feature set allows it.",
-        note="Trusted: Kani/CBMC, Verus; the release-notes oracle table; override lookup as one uninterpreted accessor. Unverified: the other codegen sites that must consult a flag (Var::codegen cstr arms: seed S12 missed; observed on the unchanged tree: --use-core --generate-cstr emits ::core::ffi::CStr for 1.59-1.63 although it is stable since 1.64), edition validation in Builder::generate, RustTarget::from_str/default.",
+        note="Trusted: Kani/CBMC, Verus; the release-notes oracle table; override lookup as one uninterpreted accessor. Unverified: the other codegen sites that must consult a flag (the Var::codegen string arms and helpers::ast_ty::raw_type ARE under contract: units var_string, raw_type; F8 repaired), edition validation in Builder::generate, RustTarget::from_str/default.",
         ref="DESIGN.md §3 C14"),
 }
 
